@@ -33,3 +33,146 @@ def load_script():
     module.CONSOLE_HANDLER.setStream(io.StringIO())
     _SCRIPT = module
     return module
+
+
+# ---------------------------------------------------------------------------- driver
+
+_MEMO = {}
+
+
+class _Collector(logging.Handler):
+    def __init__(self):
+        super().__init__(level=1)
+        self.records = []
+
+    def emit(self, record):
+        self.records.append((record.levelno, getattr(record, 'type', 'general')))
+
+
+def _memoise(script):
+    """Parse the shipped data once per process; hand out fresh outer containers per call."""
+    import copy
+    import vermouth.forcefield
+    if 'installed' in _MEMO:
+        return
+    real_find = vermouth.forcefield.find_force_fields
+    real_read = script.read_mapping_directory
+    real_self = script.generate_all_self_mappings
+    _MEMO['real'] = (real_find, real_read, real_self)
+
+    def find_force_fields(directory, force_fields=None):
+        key = ('ff', str(directory))
+        if force_fields is not None:
+            return real_find(directory, force_fields)
+        if key not in _MEMO:
+            _MEMO[key] = real_find(directory)
+        return dict(_MEMO[key])
+
+    def read_mapping_directory(directory, force_fields):
+        key = ('map', str(directory), tuple(sorted(force_fields)))
+        if key not in _MEMO:
+            _MEMO[key] = real_read(directory, force_fields)
+        # two levels of dicts are combined/mutated by the script (combine_mappings)
+        return collections_copy(_MEMO[key])
+
+    def generate_all_self_mappings(force_fields):
+        force_fields = list(force_fields)
+        key = ('self', tuple(sorted(ff.name for ff in force_fields)))
+        if key not in _MEMO:
+            _MEMO[key] = real_self(force_fields)
+        return collections_copy(_MEMO[key])
+
+    vermouth.forcefield.find_force_fields = find_force_fields
+    script.read_mapping_directory = read_mapping_directory
+    script.generate_all_self_mappings = generate_all_self_mappings
+    _MEMO['installed'] = True
+
+
+def collections_copy(mappings):
+    """Copy the nesting of dicts (from_ff -> to_ff -> name -> Mapping) without copying Mapping objects."""
+    import collections
+    out = collections.defaultdict(lambda: collections.defaultdict(dict))
+    for from_ff, to_dict in mappings.items():
+        for to_ff, names in to_dict.items():
+            out[from_ff][to_ff] = dict(names)
+    return out
+
+
+def script_path():
+    return os.path.join(common.REPO, 'bin', 'martinize2')
+
+
+def run_inprocess(argv, workdir):
+    """Run the script's own entry() with sys.argv = [script] + argv in `workdir`.
+    Returns dict(exit, records=[(level,type)], stderr=str)."""
+    import tempfile
+    import traceback
+    from vermouth.file_writer import DeferredFileWriter
+    script = load_script()
+    _memoise(script)
+    collector = _Collector()
+    logger = logging.getLogger('vermouth')
+    old_cwd = os.getcwd()
+    old_argv = sys.argv
+    old_tmp = tempfile.tempdir
+    stream = io.StringIO()
+    script.CONSOLE_HANDLER.setStream(stream)
+    script.COUNTER.counts.clear()
+    writer = DeferredFileWriter()
+    writer.close()
+    code = 0
+    err_text = ''
+    logger.addHandler(collector)
+    try:
+        os.chdir(workdir)
+        tmpdir = os.path.join(os.path.dirname(os.path.abspath(workdir)), 'tmp_' + os.path.basename(workdir))
+        os.makedirs(tmpdir, exist_ok=True)
+        tempfile.tempdir = tmpdir
+        sys.argv = [script_path()] + [str(a) for a in argv]
+        out, err = io.StringIO(), io.StringIO()
+        with contextlib.redirect_stdout(out), contextlib.redirect_stderr(err):
+            try:
+                script.entry()
+            except SystemExit as exc:
+                code = exc.code if isinstance(exc.code, int) else (0 if exc.code is None else 1)
+            except BaseException:   # an uncaught exception ends a real process with status 1
+                code = 1
+                err_text = traceback.format_exc()
+        err_text = err.getvalue() + err_text
+    finally:
+        logger.removeHandler(collector)
+        sys.argv = old_argv
+        os.chdir(old_cwd)
+        tempfile.tempdir = old_tmp
+        writer.close()          # what process exit does with never-finalised files
+        script.COUNTER.counts.clear()
+        import shutil
+        shutil.rmtree(tmpdir, ignore_errors=True)
+    return {'exit': code, 'records': collector.records, 'stderr': stream.getvalue() + err_text}
+
+
+def run_subprocess(argv, workdir, hashseed='0', timeout=600):
+    import subprocess
+    env = dict(os.environ)
+    env['PYTHONHASHSEED'] = str(hashseed)
+    env['PYTHONPATH'] = common.REPO
+    env['PYTHONDONTWRITEBYTECODE'] = '1'
+    tmpdir = os.path.join(os.path.dirname(os.path.abspath(workdir)), 'tmp_' + os.path.basename(workdir))
+    os.makedirs(tmpdir, exist_ok=True)
+    env['TMPDIR'] = tmpdir
+    res = subprocess.run(['/venv/bin/python', '-W', 'ignore', script_path()] + [str(a) for a in argv],
+                         cwd=workdir, env=env, capture_output=True, text=True, timeout=timeout)
+    import shutil
+    shutil.rmtree(tmpdir, ignore_errors=True)
+    return {'exit': res.returncode, 'stderr': res.stderr, 'stdout': res.stdout}
+
+
+def parse_warnings(stderr):
+    """(level name, type) of every log line the CLI printed at WARNING or above."""
+    import re
+    out = []
+    for line in stderr.splitlines():
+        m = re.match(r'\s*(WARNING|ERROR|CRITICAL) - ([^ ]+) - ', line)
+        if m:
+            out.append((m.group(1), m.group(2)))
+    return out
